@@ -27,6 +27,21 @@ def check(v, tier, seed):
             o.write(open(m2).read())
         probes += p2
         v.cov["model_rows_probed"] = p2
+    # valid kd-tree clouds of 4 points with 1, 2, 3 and 8 attributes of 255 components (the encoder's own streams), decoded with the same accounting and
+    # validated on their own: their input class is named by a known finding (peak memory quadratic in the declared number of components)
+    exe = vlib.build_drv("drv_fault", "plain")
+    widef = os.path.join(wd, "widekd.ndjson")
+    rc, out = vlib.run("%s widekd > /dev/null" % exe, timeout=600, env={"VERIF_RECORDS": widef})
+    if rc != 0:
+        raise vlib.Infra("drv_fault widekd rc=%d %s" % (rc, out[-400:]))
+    wrecs = vlib.read_ndjson(widef)
+    tw = vlib.trace_validate("Trace_Fault", widef, cfg="Trace_Fault_C18.cfg", nshards=1, timeout=600)
+    vlib.tlc_ok(tw, "Trace_Fault C18 (wide kd-tree clouds)")
+    if tw["violated"]:
+        bad = wrecs[tw["bad_index"] - 1] if tw["bad_index"] and tw["bad_index"] > 0 else None
+        v.violation({"what": "decoding a valid kD-tree cloud with many attribute components: peak of live memory exceeds K0 + K*(input length + declared counts)",
+                     "record": {k: bad[k] for k in bad if k != "sv"} if bad else None}, tags={"kind": "C18", "input": "kd_tree_many_components"})
+    v.cov["wide_kd_probes"] = len(wrecs)
     recs, n = faultcommon.validate(v, "C18", merged, "an allocation (or the peak of live memory) while decoding exceeds K0 + K*(input length + declared counts)")
     pr = [x for x in recs if x["e"] == "Probe" and x["allocs"]]
     v.cov["evaluations"] = probes
